@@ -12,7 +12,10 @@ oracle : independent of the model, exact (only comparisons of binary64 values, n
          max left > min right, else == pointwise (max left, min right) [lower bound + greatest];
          every listing order gives the same result; associativity / idempotence of the methods;
          X contained in P  =>  `X in P`; range of X outside the range of P => not `X in P`;
-         every operand `in` its envelope, the imposition `in` every operand.
+         every operand `in` its envelope, the imposition `in` every operand;
+         state between calls: results kept alive do not change, operands are not modified, re-evaluation after unrelated
+         calls reproduces the first result, freshly created operands at reused addresses do not inherit earlier values,
+         a converted DS structure spends mass*200 (+-2) steps on each focal element.
 """
 from __future__ import annotations
 import itertools, json, math, warnings
@@ -532,7 +535,12 @@ def run(ctx: core.Check):
                 "sampled triples, random integer / quarter-valued families built around a common core (imposition exists) with one operand pushed far, "
                 "touching in one point, or disjoint at exactly one step (first / last / random), unrelated random families, library-constructor "
                 "families; each evaluated in every listing order (all k! up to k = 4, all 120 for part of the 5-families, sampled otherwise). "
-                "Non-trivial = at least two operands that are not all equal; distinct on the operand descriptions.")
+                "Sequence stream (operands created right before each call and dropped after it): same focal elements with different masses, "
+                "same family / other parameter, DS structures given as lists / one vector Interval / Interval objects, integer-dtype p-boxes, "
+                "numpy integer numbers; extreme stream: tiny (1e-9, 1e-20, 2**-60), thin (relative 1e-9) and huge (1e18) operands; "
+                "create / aggregate / drop loops per operand kind (address reuse); every first result object is kept alive and re-read "
+                "later, operands are snapshotted and compared after the calls, a sample of families is evaluated again at the end "
+                "(same objects, and rebuilt). Non-trivial = at least two operands that are not all equal; distinct on the operand descriptions.")
     ctx.assumptions = ["bounds of Distribution / DempsterShafer operands are taken from their own to_pbox() (C08 / C09 are about those)",
                        "moments are stubbed in the harness process (C04's concern); output_type other than 'pbox' is not exercised",
                        "vector Intervals and sample-based Distribution objects are outside the modelled operand kinds"]
@@ -770,6 +778,39 @@ def run(ctx: core.Check):
                     if off:
                         ctx.fail({**feat0, "call": "convert", "check": "ds-masses"}, {**desc, "operand": d}, "converted DS structure: " + off)
         ctx.sample({"stream": stream, "operands": [o if o[0] not in ("P",) else ["P", o[1][:3], o[2][:3]] for o in ops]})
+
+    # ---- address reuse: one operand at a time is created, aggregated with a fixed partner and dropped; the next one (other
+    #      values, same type, very likely the same address) must not inherit anything from it ---------------------------------
+    from pyuncertainnumber import pba as _pba
+    wide = _pba.I(-1e6, 1e6)
+    T = ctx.scale(24, 120)
+    churn = {
+        "I": [["I", t % 7 - 3, t % 7 - 3 + 1 + t % 3] for t in range(T)],
+        "N": [["N", float(t % 5) - 2.5, "np"] for t in range(T)],
+        "S": [["S", [[0, 1], [2, 4], [3, 7]], [round(.1 + .02 * (t % 9), 2), .3, round(.6 - .02 * (t % 9), 2)], ("lists", "ivec", "iobjs")[t % 3]]
+              for t in range(T)],
+        "D": [["D", "gaussian", [t % 4, 1 + (t % 3) / 2]] for t in range(T)],
+        "P": [["P", [[t % 5, 60 + t], [t % 5 + 1, 140 - t]], [[t % 5 + 2, 200]]] for t in range(T)],
+        "Pi": [["Pi", [[t % 3, 200]], [[t % 3 + 1, 50 + t], [t % 3 + 4, 150 - t]]] for t in range(T)],
+        "L": [["L", "min_max", [t % 4, t % 4 + 2 + t % 3]] for t in range(T)],
+    }
+    for kind, seqd in churn.items():
+        for t, d in enumerate(seqd):
+            o = build(d)
+            b = bounds_of(d, o)
+            c = float(t % 3)
+            wantE = ("ok", [min(v, c) for v in b[0]], [max(v, c) for v in b[1]])
+            for which, got, want in (("envelope", call(envelope, o, c), wantE), ("envelope", call(envelope, c, o), wantE),
+                                     ("imposition", call(imposition, o, wide), ("ok", b[0], b[1]))):
+                ctx.count(("churn", kind, t, which), True, "address-reuse")
+                if got != want:
+                    ctx.fail({"k": 2, "kinds": kinds([d, ["N", c, "float"]]), "stream": "churn", "call": which, "check": "stale-operand"},
+                             {"stream": "churn", "operands": [d, ["N", c, "float"]] if which == "envelope" else [d, ["I", -1e6, 1e6]],
+                              "call": which, "impl": js(got), "expected": js(want), "iteration": t},
+                             f"{which} of a freshly created {kind} operand (iteration {t} of a create / aggregate / drop loop) is not the "
+                             f"pointwise bound of ITS values — state of an earlier operand is carried over")
+                    break
+            del o
 
     # ---- state carried between calls: re-read every kept result, re-evaluate a sample after all the unrelated calls --------
     recheck_kept()
